@@ -24,6 +24,8 @@ type SpecEnv struct {
 	lets map[string]*Expr
 	bound map[string]Val
 	inOld bool
+	wantCell bool
+	preferNames bool // loop invariants: source variables denote their current values
 }
 
 func (e *Engine) specEnv(st, old *State, fr *Frame) *SpecEnv {
@@ -121,17 +123,32 @@ func (e *Engine) lookupName(name string, se *SpecEnv) (Val, bool) {
 	if v, ok := se.bound[name]; ok {
 		return v, true
 	}
-	if v, ok := se.vars[name]; ok {
-		return v, true
+	if !se.preferNames {
+		if v, ok := se.vars[name]; ok {
+			return v, true
+		}
 	}
 	if se.fr != nil {
 		if nb, ok := se.fr.names[name]; ok {
 			if nb.IsAddr {
 				st := se.st
-				return e.loadLoc(st, e.locOf(nb.V)), true
+				loc := e.locOf(nb.V)
+				if loc.Kind == LocCell {
+					if _, live := st.cells[loc.Cell]; !live {
+						// the variable's cell did not exist in that (old) state: a parameter denotes its entry value
+						if v, ok := se.vars[name]; ok {
+							return v, true
+						}
+						panic(unsupported("variable %s does not exist in the old state", name))
+					}
+				}
+				return e.loadLoc(st, loc), true
 			}
 			return nb.V, true
 		}
+	}
+	if v, ok := se.vars[name]; ok {
+		return v, true
 	}
 	if v, ok := se.st.ghost[name]; ok {
 		return v, true
@@ -544,6 +561,19 @@ func (e *Engine) evalCall(x *Expr, se *SpecEnv) Val {
 		return mkBool(e.unchangedAll(se))
 	case "wf":
 		return mkBool(e.wellFormed(arg(0), se.st.next))
+	case "mark":
+		// mark(x): an always-true marker used purely as an instantiation trigger
+		a := arg(0)
+		f := e.ctx.Fun("mark", []Sort{SInt}, SBool)
+		e.ctx.Axiom("mark_true", "(forall ((x Int)) (! (mark x) :pattern ((mark x))))")
+		return mkBool(T(SBool, "(%s %s)", f, a.L[0].S))
+	case "cellof":
+		n := *se
+		n.wantCell = true
+		if v, ok := e.evalPureGo(x.Args[0], &n); ok {
+			return v
+		}
+		panic(unsupported("cellof of %s", x.Args[0]))
 	case "isnil":
 		return mkBool(Eq(arg(0).L[0], IntLit(0)))
 	}
